@@ -51,8 +51,10 @@ Verdict(t) ==
       vs == [i \in DOMAIN t.queries |-> QueryVerdict(t, t.queries[i], ucpts)]
       bad == {i \in DOMAIN vs : vs[i] # "ok"}
   IN
-  IF ~(t.n % 12 = 0 /\ t.n <= 24 /\ t.K \in 1..6 /\ t.k >= 0 /\ Len(t.queries) > 0) THEN "OOD shape" ELSE
-  IF ~(\A i \in Idx : \A j \in Idx : AbsI(t.gram[i][j]) <= 400) THEN "OOD gram-magnitude" ELSE
+  IF ~(t.n % 12 = 0 /\ t.n <= 48 /\ t.K \in 1..9 /\ t.k >= 0 /\ Len(t.queries) > 0) THEN "OOD shape" ELSE
+  \* 32-bit safety: |coordinate differences| <= (K+3) N, so Dist2N <= 9 maxG ((K+3)N)^2 must stay below 2^31
+  IF ~(\A i \in Idx : \A j \in Idx : AbsI(t.gram[i][j]) <= 2147483647 \div (9 * ((t.K + 3) * t.n) * ((t.K + 3) * t.n))) THEN "OOD gram-magnitude" ELSE
+  IF ~(\A i \in DOMAIN t.queries : \A c \in SeqSet(t.queries[i].centre) : \A x \in Idx : AbsI(c[x]) <= 2 * t.n) THEN "OOD centre-range" ELSE
   IF ~MetricCompatible(t.ops, t.gram) THEN "OOD metric" ELSE
   IF ~OrbitsDisjointT(tab) THEN "OOD overlapping-orbits" ELSE
   IF bad = {} THEN "ACCEPT" ELSE vs[CHOOSE i \in bad : \A j \in bad : i <= j]
